@@ -2,6 +2,7 @@ package main
 
 import (
 	"strings"
+	"unicode/utf8"
 )
 
 // C02: a document is rendered completely or rejected. Malformation classes are injected at every
@@ -62,6 +63,9 @@ func runC02(ctx *Ctx) *Report {
 	add := func(doc string, class string) {
 		mode := modes[k%len(modes)]
 		k++
+		if (mode == "json" || mode == "yaml") && !utf8.ValidString(doc) {
+			mode = "out-batch" // the standard encoders replace invalid UTF-8: not this property's subject
+		}
 		var c Case
 		switch mode {
 		case "out-iter":
@@ -77,7 +81,8 @@ func runC02(ctx *Ctx) *Report {
 		case "walk":
 			c = newCase("walk")
 			for _, r := range strings.Split(doc, "\n") {
-				if !isBlankGo(r) {
+				// (the seeded stream leaves the expected texts to the model: its rows are cut by the model's scanner)
+				if !isBlankGo(r) && class != "random-edit" && class != "random-well-formed" {
 					c.Texts = append(c.Texts, textOf(r))
 				}
 			}
@@ -134,6 +139,46 @@ func runC02(ctx *Ctx) *Report {
 			add(string(spell(f, spellings[fi%len(spellings)])), "well-formed")
 		}
 	}
+	// seeded stream: random forests and notations, then 1..3 random byte edits (insert, delete, replace,
+	// swap two rows, duplicate a row) drawn from the bytes that matter to the parser; the model decides
+	// the verdict, the error payload and the output of each
+	nrand := 1500
+	if ctx.Thorough {
+		nrand = 12000
+	}
+	alphabet := []byte(" \t-*+#x\n\r a")
+	for i := 0; i < nrand; i++ {
+		f := randForest(ctx.Rng, 1+ctx.Rng.Intn(9), []string{"plain", "bullets", "blanks", "unicode"}, 3, rep.Dist)
+		doc := spell(f, randSpelling(ctx.Rng))
+		ne := ctx.Rng.Intn(4)
+		for e := 0; e < ne && len(doc) > 0; e++ {
+			pos := ctx.Rng.Intn(len(doc))
+			b := alphabet[ctx.Rng.Intn(len(alphabet))]
+			switch ctx.Rng.Intn(5) {
+			case 0:
+				doc = append(append(append([]byte{}, doc[:pos]...), b), doc[pos:]...)
+			case 1:
+				doc = append(append([]byte{}, doc[:pos]...), doc[pos+1:]...)
+			case 2:
+				doc = append([]byte{}, doc...)
+				doc[pos] = b
+			default:
+				rows := strings.SplitAfter(string(doc), "\n")
+				a, b2 := ctx.Rng.Intn(len(rows)), ctx.Rng.Intn(len(rows))
+				if ctx.Rng.Intn(2) == 0 {
+					rows[a], rows[b2] = rows[b2], rows[a]
+				} else {
+					rows = append(rows[:a+1], rows[a:]...)
+				}
+				doc = []byte(strings.Join(rows, ""))
+			}
+		}
+		if ne == 0 {
+			add(string(doc), "random-well-formed")
+		} else {
+			add(string(doc), "random-edit")
+		}
+	}
 	// the same stream in massive mode: verdict relation to simple mode + no silent loss (real code)
 	var mcases []Case
 	for i, c := range cases {
@@ -144,7 +189,7 @@ func runC02(ctx *Ctx) *Report {
 		mc.Doc, mc.DocText, mc.Note = c.Doc, c.DocText, c.Note
 		mc.Mode = []string{"walk", "text", "json"}[i%3]
 		for _, r := range strings.Split(string(unhx(c.Doc)), "\n") {
-			if !isBlankGo(r) {
+			if !isBlankGo(r) && !strings.HasPrefix(c.Note, "random-") {
 				mc.Texts = append(mc.Texts, textOf(r))
 			}
 		}
@@ -155,7 +200,7 @@ func runC02(ctx *Ctx) *Report {
 	runCasesClass(rep, cases, ctx.Workers)
 	parallel(mcases, ctx.Workers/2+1, func(m *Model, c Case) {
 		diffs := runMassiveVerdict(c)
-		rep.Record(c, caseKey(c), c.Note != "well-formed", diffs)
+		rep.Record(c, caseKey(c), !strings.HasSuffix(c.Note, "well-formed"), diffs)
 		rep.Count("massive:" + c.Mode)
 	})
 	knownHits.Lock()
@@ -170,7 +215,7 @@ func runC02(ctx *Ctx) *Report {
 func runCasesClass(rep *Report, cases []Case, workers int) {
 	parallel(cases, workers, func(m *Model, c Case) {
 		diffs, realv := runCaseR(m, c)
-		rep.Record(c, caseKey(c), c.Note != "well-formed" && strings.Count(c.DocText, "\n") >= 3, diffs)
+		rep.Record(c, caseKey(c), !strings.HasSuffix(c.Note, "well-formed") && strings.Count(c.DocText, "\n") >= 3, diffs)
 		rep.Count("class:" + strings.SplitN(c.Note, "/", 2)[0] + "=>" + resultClass(realv))
 	})
 }
